@@ -79,18 +79,18 @@ def u64le : Bytes → Option (UInt64 × Bytes)
   | _ => none
 
 def u16be : Bytes → Option (UInt16 × Bytes)
-  | a :: b :: r => some ((a.toUInt16 <<< 8) ||| b.toUInt16, r)
+  | a :: b :: r => some (b.toUInt16 ||| (a.toUInt16 <<< 8), r)
   | _ => none
 
 def u32be : Bytes → Option (UInt32 × Bytes)
   | a :: b :: c :: d :: r =>
-    some ((a.toUInt32 <<< 24) ||| (b.toUInt32 <<< 16) ||| (c.toUInt32 <<< 8) ||| d.toUInt32, r)
+    some (d.toUInt32 ||| (c.toUInt32 <<< 8) ||| (b.toUInt32 <<< 16) ||| (a.toUInt32 <<< 24), r)
   | _ => none
 
 def u64be : Bytes → Option (UInt64 × Bytes)
   | a :: b :: c :: d :: e :: f :: g :: h :: r =>
-    some ((a.toUInt64 <<< 56) ||| (b.toUInt64 <<< 48) ||| (c.toUInt64 <<< 40) ||| (d.toUInt64 <<< 32) |||
-      (e.toUInt64 <<< 24) ||| (f.toUInt64 <<< 16) ||| (g.toUInt64 <<< 8) ||| h.toUInt64, r)
+    some (h.toUInt64 ||| (g.toUInt64 <<< 8) ||| (f.toUInt64 <<< 16) ||| (e.toUInt64 <<< 24) |||
+      (d.toUInt64 <<< 32) ||| (c.toUInt64 <<< 40) ||| (b.toUInt64 <<< 48) ||| (a.toUInt64 <<< 56), r)
   | _ => none
 
 def Prim.width : Prim → Nat
@@ -240,6 +240,11 @@ struct's own attribute, if any, is resolved first (so a redundant `#[brw(little)
 is only ever read little-endian does not change the normal form) -/
 def Layout.normalizeAt (e : Endian) : Layout → Layout
   | .mk le m fs c => (Layout.mk (some (le.getD e)) m fs c).normalize
+
+/-- project every element of a `Vec` / array value -/
+def projAll {α : Type} (proj : Value → Option α) : List Value → Option (List α)
+  | [] => some []
+  | v :: vs => (proj v).bind fun a => (projAll proj vs).map (a :: ·)
 
 /-- the phrasing of every tie theorem: `model reader l = via proj (Layout.read e generated l)` —
 the hand-written reader is the generated layout followed by a pure projection of the values -/
